@@ -24,6 +24,7 @@ type HarnessOpts struct {
 	ChanCap   int // if > 0, cap for every make(chan, n) (the code never reads the capacity)
 	MapOrder  int // 0 insertion order, 1 insertion+reverse, 2 all permutations up to 3 entries
 	PoolAny   bool
+	GlobalRace bool // accesses to package-level variables are scheduling points
 	ExprTable bool // expr.Parse answers from the harness table (C15)
 	Tier      int
 }
@@ -47,6 +48,7 @@ type Engine struct {
 
 	errStringPtrType *RType
 	baseGlobals      map[*ssa.Global]int32
+	globalIDs        map[int32]bool // object ids of package-level variables of packages log and expr
 	initPhase        bool
 	template         *State
 	concCap          int
@@ -191,6 +193,7 @@ func loadEngine(repo string, ov map[string][]byte) (*Engine, error) {
 		return nil, fmt.Errorf("package log not found")
 	}
 	e.baseGlobals = map[*ssa.Global]int32{}
+	e.globalIDs = map[int32]bool{}
 	e.setupIntrinsics()
 	for real, model := range map[string]string{"sort.Slice": "vmSortSlice", logPath + "/expr.Parse": "vmExprParse"} {
 		if f := e.logPkg.Func(model); f != nil {
@@ -581,6 +584,7 @@ func (s *State) evalDescribe(v Value) string {
 // addViolation must be called with e.mu held or from the owning worker before record.
 func (e *Engine) addViolation(s *State, kind, label, detail string) {
 	v := &Violation{Harness: s.harness, Kind: kind, Label: label, Detail: detail, Model: s.model,
+		NoNative: s.noNative,
 		Choices: append([]ChoiceRec(nil), s.choices...), Decisions: append([]int(nil), s.rawChoices...), Inputs: s.concreteInputs(s.model), Trace: append([]string(nil), s.trace...)}
 	for id := range s.knownIn {
 		if kf, ok := e.known[id]; ok && kf.Status == "open" {
@@ -615,4 +619,9 @@ type ReplayDoc struct {
 	Decisions []int             `json:"decisions"`
 	Values    map[string]uint64 `json:"values"`
 	Tier      int               `json:"tier"`
+}
+
+// isGlobalObj reports whether heap object id is the storage of a package-level variable of the code under test.
+func (e *Engine) isGlobalObj(s *State, id int32) bool {
+	return e.globalIDs[id] || s.extraGlobIDs[id]
 }
